@@ -32,7 +32,7 @@ def how_coq(h):
     return ('HExit (%d)' if h[0] == 'exit' else 'HSignal (%d)') % h[1]
 
 
-def run_ag(nruns, plan_by_run, njobs=1, text=None):
+def run_ag(nruns, plan_by_run, njobs=1, text=None, train=None):
     """plan_by_run: {run index: behaviour}; returns (outcome, leftover entries)"""
     d = tempfile.mkdtemp(prefix='c16-ag-')
     nthreads = threading.active_count()      # the main thread, plus joblib's process-pool threads once dpseg ran with several jobs
@@ -45,7 +45,7 @@ def run_ag(nruns, plan_by_run, njobs=1, text=None):
         json.dump(plan, open(pf, 'w'))
         os.environ['AG_STUB_PLAN'] = pf
         try:
-            out = ag.segment(list(text or TEXT), args='-n 4 -x 2 -r %d' % seed, nruns=nruns, njobs=njobs, tempdir=work)
+            out = ag.segment(list(text or TEXT), train_text=None if train is None else list(train), args='-n 4 -x 2 -r %d' % seed, nruns=nruns, njobs=njobs, tempdir=work)
             res = ('ok', out)
         except Exception as e:  # noqa
             res = ('raise', type(e).__name__)
@@ -294,6 +294,13 @@ def main():
         plan = {i: dict(pt, how=list(how), non_ascii=True)}
         scs.append(('ag', n, plan))
         observed.append(run_ag(n, plan, text=text_u))
+    # a training text distinct from the text to segment (another code path for the files of a run): failing and healthy runs
+    train_u = ['a b c', 'c b', 'a a b']
+    for n, i, how, pt in ((1, 0, HOWS[0], dict(complete=0, partial=0)), (2, 1, HOWS[3], dict(complete=1, partial=1)), (3, 0, HOWS[2], dict(complete=None)),
+                          (2, None, None, None)):
+        plan = {} if i is None else {i: dict(pt, how=list(how), train_text=True)}
+        scs.append(('ag', n, plan))
+        observed.append(run_ag(n, plan, train=train_u))
     # several jobs (after the sequential scenarios: see par_setup)
     njobs_obs = []
     for kind, n, plan, nj in parallel_scenarios(ck, scs):
